@@ -33,11 +33,13 @@ PROPS = {
         "outside": "composition over sequences longer than 2 is by the prose argument of DESIGN §4 C01 (commute + idempotent + frame); " + OUT_E1,
         "assumptions": [STUBS],
         "harnesses": [
-            H("c01_commute", tier=Q, cost=360, timeout_q=900, entry="Members::apply x2 in both orders", bounds="1 address, base + 2 updates"),
+            H("c01_commute", tier=Q, cost=200, timeout_q=900, entry="Members::apply x2 in both orders", bounds="1 address, known record + 2 updates"),
+            H("c01_commute_new", tier=Q, cost=200, timeout_q=900, entry="Members::apply x2 in both orders", bounds="1 address, no record + 2 updates"),
             H("c01_idempotent", cost=130, entry="Members::apply twice"),
             H("c01_monotone", cost=15, entry="Members::apply / Member::change_state / can_change"),
             H("c01_frame", cost=100, entry="Members::apply with a second record"),
             H("c01_exchange", cost=30, entry="Members::apply both directions"),
+            H("e4_can_change_smt", engine="smt", cost=100, entry="Member::can_change (MIR -> SMT-LIB2, z3 + cvc5)", bounds="all u16 incarnations, 3 states; 6 queries x 2 solvers; translation validated on 72 points"),
             H("a_apply1_k1", cost=120, entry="Foca::apply_many(once(u))"),
             H("a_apply1_k2", tier=T, cost=220, entry="Foca::apply_many(once(u))"),
             H("a_apply1_k3", tier=T, cost=400, entry="Foca::apply_many(once(u))"),
@@ -138,9 +140,9 @@ PROPS = {
         "assumptions": [STUBS, "the runtime delivers each scheduled timer at most once"],
         "harnesses": [
             H("c13_stale_probe", cost=30), H("c13_stale_suspect", cost=45), H("c13_stale_gossip", cost=30), H("t_probe_k2", cost=60), H("t_announce", cost=65),
-            H("c06_set_config_same", cost=60), H("a_apply1_k1", cost=120),
+            H("c06_set_config_same", cost=60), H("a_apply1_k1", cost=120), H("a_change_identity", cost=50), H("a_reuse", cost=12),
             H("c13_stale_indirect", tier=T, cost=100), H("c13_stale_announce", tier=T, cost=85), H("c13_stale_announce_down", tier=T, cost=95), H("t_gossip", tier=T, cost=200),
-            H("t_announce_down", tier=T, cost=120), H("a_leave", tier=T), H("a_change_identity", tier=T), H("a_reuse", tier=T), H("d_turn_undead_never", tier=T, cost=200), H("d_turn_undead_next", tier=T, cost=600, timeout_t=3000),
+            H("t_announce_down", tier=T, cost=120), H("a_leave", tier=T), H("d_turn_undead_never", tier=T, cost=200), H("d_turn_undead_next", tier=T, cost=600, timeout_t=3000),
             H("c11_timeout_iff", tier=T), H("t_indirect_k2", tier=T),
         ],
     },
@@ -155,6 +157,7 @@ PROPS = {
     },
     "C15": {
         "level": "model_checking",
+        "owns": ["C15", "C06"],
         "bounds": "real broadcast.rs against the heap model: <= 3 entries, budgets 1..=255 symbolic, entry lengths concrete per instance (1..4), space 0..=14 and max_items symbolic; sender gate: " + BOUNDS_E1,
         "outside": "> 3 backlog entries (model capacity 3); the induction from one fill to max_transmissions datagrams is the prose argument of DESIGN §4 C15",
         "assumptions": [STUBS, "BinaryHeap model: pop returns some maximal element (std's tie-breaking is covered by nondeterminism)"],
@@ -168,6 +171,7 @@ PROPS = {
     },
     "C16": {
         "level": "model_checking",
+        "owns": ["C16", "C06"],
         "bounds": "real broadcast.rs against the heap model (<= 3 items, arbitrary 3x3 invalidation relation); Foca level: " + BOUNDS_E1 + "; 3-byte items, symbolic handler answer and recipient predicate",
         "outside": "items > 6 bytes, > 2 pending items, 64 KiB length truncation", "assumptions": [STUBS],
         "harnesses": [
@@ -182,13 +186,14 @@ PROPS = {
         "outside": "scratch buffers (updates_buf/choice_buf/send_buf contents) are not compared: every obligation starts from empty scratch and foca clears them before use; determinism rests on safe Rust without statics/clocks (checked structurally by bin/check) plus full-state equality here",
         "assumptions": [STUBS],
         "harnesses": [
-            H("c17_oversize", cost=20), H("c17_bad_header_5", cost=30), H("c17_bad_header_tag11", cost=30), H("c17_bad_member_state", cost=40), H("c17_bad_member_count", cost=40), H("c17_trailing_byte", cost=30), H("d_ping", cost=80),
+            H("c17_oversize", cost=20), H("c17_bad_header_5", cost=30), H("c17_bad_header_tag11", cost=30), H("c17_bad_member_state", cost=40), H("c17_bad_member_count", cost=40), H("c17_trailing_byte", cost=30), H("c17_trailing_byte_ping", cost=60), H("d_ping", cost=80),
             H("a_reuse", cost=12), H("c16_add_broadcast", cost=40),
-            H("a_change_identity", tier=T), H("c06_set_config_same", tier=T), H("c17_announce_payload", tier=T), H("c17_bad_header_0", tier=T), H("c17_bad_header_9", tier=T), H("c17_bad_header_tag255", tier=T), H("c17_bad_member_trunc", tier=T), H("c17_bad_member_state255", tier=T), H("c13_stale_probe", tier=T), H("d_gossip", tier=T), H("a_announce", tier=T),
+            H("a_change_identity", tier=T), H("c06_set_config_same", tier=T), H("c17_announce_payload", tier=T), H("c17_trailing_byte_turn_undead", tier=T, cost=300), H("c17_bad_header_0", tier=T), H("c17_bad_header_9", tier=T), H("c17_bad_header_tag255", tier=T), H("c17_bad_member_trunc", tier=T), H("c17_bad_member_state255", tier=T), H("c13_stale_probe", tier=T), H("d_gossip", tier=T), H("a_announce", tier=T),
         ],
     },
     "C18": {
         "level": "other",
+        "owns": ["C18", "C10"],
         "explanation": ("Termination of a multi-instance exchange is not model-checked (out of reach). Decided: the local facts that make every cascade finite, each for all "
                         "values within the bounds on one real instance: bounded fan-out per delivered datagram, the reply table (each direct reply strictly lighter than its "
                         "trigger), Gossip only in reaction to a suspicion about oneself or an identity change, at most one TurnUndead to a down sender, and a TurnUndead is "
@@ -211,6 +216,7 @@ PROPS = {
     },
     "C20": {
         "level": "model_checking",
+        "owns": ["C20", "C06"],
         "bounds": "identity type SId{u8,u8}; every Message variant (one harness each), all incarnations/probe numbers; postcard: monolithic round-trip with one trailing byte, every buffer limit 0..=6, arbitrary byte strings <= 8 (member) / <= 12 (header); bincode: encode == reference encoding, decode(reference) == value, short buffers, arbitrary <= 6 bytes",
         "outside": "identities owning heap data (String/Vec); inputs > 12 bytes; the mid-feed clause is decided in C07 (c07_send_feed_failing)",
         "assumptions": ["alloc::fmt::format stubbed to an empty string (error formatting has no effect on control flow)"],
@@ -224,8 +230,8 @@ PROPS = {
     },
 }
 
-DEV = ["c17_bad_member_state","d_gossip_upd","d_ping","c17_bad_member_count"]
-PROPS["DEV"] = {"level": "model_checking", "harnesses": [H(n) for n in DEV]}
+DEV = ["bc_fill_2_a","bc_add_keyed","bc_invalidate","bc_fill_prefix_2","bc_budget_two_rounds","bc_fill_1"]
+PROPS["DEV"] = {"level": "model_checking", "harnesses": [H(n, engine=("bcast" if n.startswith("bc_") else "codec" if n.startswith("c20_") or n.startswith("c06_config") else "incrate")) for n in DEV]}
 
 HOOK_COMMITS = ["2dd5aa0"]
 FIX_COMMITS = ["abe7c6a", "5436701", "e6d4c29", "8791f91"]
